@@ -117,6 +117,8 @@ struct ILaws
 	virtual bool lt(int a, int b) = 0;
 	virtual size_t hash(int a) = 0;
 	virtual unsigned long long digest(int a) = 0;
+	// what the Digester returns for the value itself, computed by the harness (the id's digest must be exactly that)
+	virtual unsigned long long expectedDigest(int a) = 0;
 	virtual bool comparableStorage() const = 0;
 	// what the (comparable) storage itself calls equal; the default is "same type and same content"
 	virtual bool storageEqual(int a, int b) const = 0;
@@ -143,6 +145,19 @@ struct Laws : ILaws
 	bool lt(int a, int b) override { return makeId<Id>(a) < makeId<Id>(b); }
 	size_t hash(int a) override { return std::hash<Id>()(makeId<Id>(a)); }
 	unsigned long long digest(int a) override { return (unsigned long long)makeId<Id>(a).getDigest(); }
+	unsigned long long expectedDigest(int a) override {
+		const Val & v = kVals[((a % kPool) + kPool) % kPool];
+		switch(v.type) {
+		case 0: return (unsigned long long)Digester<int>()((int)v.num);
+		case 1: return (unsigned long long)Digester<long>()((long)v.num);
+		case 2: return (unsigned long long)Digester<unsigned>()((unsigned)v.num);
+		case 3: return (unsigned long long)Digester<char>()((char)v.num);
+		case 4: return (unsigned long long)Digester<bool>()(v.num != 0);
+		case 5: return (unsigned long long)Digester<Color>()((Color)v.num);
+		case 6: return (unsigned long long)Digester<std::string>()(std::string(v.str));
+		default: return (unsigned long long)Digester<UserKey>()(UserKey { (int)v.num });
+		}
+	}
 	bool comparableStorage() const override { return Comparable; }
 	bool storageEqual(int a, int b) const override { return StorageEq<Storage>::eq(a, b); }
 	struct PolMap { template <typename K, typename V> using Map = std::map<K, V>; };
@@ -196,6 +211,7 @@ struct Checker
 		const bool e = l.eq(a, b), e2 = l.eq(b, a), lab = l.lt(a, b), lba = l.lt(b, a);
 		const std::string who = nameOf(a) + ", " + nameOf(b);
 		if(! l.eq(a, a)) v.fail("anyid.eq.reflexive", "C18", "== is not reflexive for " + nameOf(a));
+		if(l.digest(a) != l.expectedDigest(a)) v.fail("anyid.digest", "C18", "the digest stored in the id of " + nameOf(a) + " is not what the Digester returns for that value (" + std::to_string(l.digest(a)) + " vs " + std::to_string(l.expectedDigest(a)) + "): ids whose digests collide are no longer equal");
 		if(l.lt(a, a)) v.fail("anyid.lt.irreflexive", "C18", "< is not irreflexive for " + nameOf(a));
 		if(e != e2) v.fail("anyid.eq.symmetric", "C18", "== is not symmetric for " + who);
 		if(lab && lba) v.fail("anyid.lt.asymmetric", "C18", "a<b and b<a both hold for " + who);
